@@ -60,6 +60,21 @@ func (c *Consistent) RemoveNode(node string) {
 		}
 	}
 	delete(c.nodes, node)
+	// 归还`node`因hash冲突从其它节点占走的虚拟节点：剩余节点缺失的虚拟节点重新放回环上
+	// （按节点名排序，结果与map遍历顺序无关）
+	var names = make([]string, 0, len(c.nodes))
+	for name := range c.nodes {
+		names = append(names, name)
+	}
+	sort.Strings(names)
+	for _, name := range names {
+		for i := 0; i < ReplicaCount; i++ {
+			var key = c.hashKey(fmt.Sprintf("%s-%d", name, i))
+			if _, found := c.circle[key]; !found {
+				c.circle[key] = name
+			}
+		}
+	}
 	c.updateSortedHash()
 }
 
